@@ -49,6 +49,7 @@ pub const TS_SNIPPETS: &[&str] = &[
   "// ast-grep-ignore: no-console\nconsole.log(2);",
   "function later() {\n  foo(1, () => {\n    first();\n\n    second();\n  });\n}",
   "function hello(name: string) {\n  console.log(name);\n}",
+  "const v = bar(1, foo(2, () => {\n  later();\n}),);",
   LONG_LINE_A,
   LONG_LINE_B,
   LONG_LINE_C,
@@ -82,6 +83,7 @@ pub const JS_SNIPPETS: &[&str] = &[
   "// ast-grep-ignore: no-console\nconsole.log(2);",
   "function later() {\n  foo(1, () => {\n    first();\n\n    second();\n  });\n}",
   "function hello(name) {\n  console.log(name);\n}",
+  "const v = bar(1, foo(2, () => {\n  later();\n}),);",
   LONG_LINE_A,
   LONG_LINE_B,
   LONG_LINE_C,
@@ -328,6 +330,8 @@ pub const CORPORA: &[LangCorpus] = &[
       ("let $A = $B", "const $A = $B"),
       ("foo($A, $B)", "foo(\n  $B,\n  $A\n)"),
       ("foo($A, $B)", "bar(\n  $B,\n      $B,\n  $A\n)"),
+      ("foo($A, $B)", "lib.$post($B, $A)"),
+      ("bar($$$ARGS)", "baz(\n  $$$ARGS\n)"),
       ("debugger", ""),
       ("$A == $B", "$A === $B"),
       ("if ($C) $B", "if (!($C)) $B"),
@@ -344,6 +348,8 @@ pub const CORPORA: &[LangCorpus] = &[
       ("var $A = $B", "let $A = $B"),
       ("foo($A, $B)", "foo(\n  $B,\n  $A\n)"),
       ("foo($A, $B)", "bar(\n  $B,\n      $B,\n  $A\n)"),
+      ("foo($A, $B)", "lib.$post($B, $A)"),
+      ("bar($$$ARGS)", "baz(\n  $$$ARGS\n)"),
       ("$A == $B", "$A === $B"),
       ("if ($C) $B", "if (!($C)) $B"),
     ],
